@@ -342,7 +342,47 @@ def r09_7(chk):
     chk.floor("R09.7", 0, "expected-zero rule with embedded probe")
 
 
+def _unbounded_climbs(fn):
+    """while loops that move a node variable to its parent and read that node's length in the loop test without
+    bounding the climb (a test of <n>.parent / <n> against None or another node)"""
+    out, n_loops = [], 0
+    for w in ast.walk(fn):
+        if not isinstance(w, ast.While):
+            continue
+        movers = {norm(st.targets[0]) for st in ast.walk(w) if isinstance(st, ast.Assign) and len(st.targets) == 1 and isinstance(st.value, ast.Attribute) and st.value.attr == "parent" and norm(st.value.value) == norm(st.targets[0])}
+        for v in movers:
+            reads_len = any(isinstance(x, ast.Attribute) and x.attr == "length" and norm(x.value) == v for x in ast.walk(w.test))
+            if not reads_len:
+                continue
+            n_loops += 1
+            bounded = any(isinstance(c, ast.Compare) and isinstance(c.ops[0], (ast.IsNot, ast.NotEq, ast.Is)) and norm(c.left) in (v, f"{v}.parent") for c in ast.walk(w.test)) or any(isinstance(x, ast.Call) and isinstance(x.func, ast.Attribute) and x.func.attr in ("isroot", "is_root") and norm(x.func.value) in (v, f"{v}.parent") for x in ast.walk(w.test))
+            if not bounded:
+                out.append((w, v))
+    return out, n_loops
+
+
+def r09_8(chk):
+    chk.rule("R09.8", "a loop that climbs towards the root (`n = n.parent`) while its test adds n.length is bounded by the ancestor it must not pass (`n.parent is not <lca>` / `is not None`): the root has no length, and with floating-point sums the distance test alone can carry the climb past the intended node (midpoint rooting of an already midpoint-rooted tree raised TypeError)")
+    m = chk.repo.module(TREE)
+    total = 0
+    for cname in ("TreeNode", "PhyloNode"):
+        ci = m.cls(cname)
+        for name, fn in ci.methods.items():
+            if not isinstance(fn, ast.FunctionDef):
+                continue
+            bad, n = _unbounded_climbs(fn)
+            total += n
+            for w, v in bad:
+                chk.violation("R09.8", key(m, f"{cname}.{name}", f"climb of {v} bounded"), m.loc(w), f"`while {norm(w.test)[:80]}` climbs `{v} = {v}.parent` on a length test only: when rounding leaves the sum just short at the last common ancestor the climb goes on to the root, whose length is None (TypeError), or past the branch the midpoint is on")
+            if n and not bad:
+                chk.ok("R09.8", key(m, f"{cname}.{name}", "climb bounded"), m.loc(fn), f"{n} climbing loop(s), each bounded by an ancestor test")
+    if total < 1:
+        raise AnalysisError("R09.8: no climbing loop found (root_at_midpoint's loop vanished or changed shape)")
+    chk.floor("R09.8", 1, "the midpoint climb")
+
+
 def run(chk):
+    r09_8(chk)
     r09_7(chk)
     r09_6(chk)
     r09_1(chk)
